@@ -95,6 +95,8 @@ def corpus():
         # duplicated adjustment positions inside / at the start of an original stretch
         case([orig_tok(0, (0, 2))], [adj_tok((0, 4), (1, 0)), adj_tok((0, 4), (2, 0))]),
         case([orig_tok(0, (0, 4))], [adj_tok((0, 4), (1, 0)), adj_tok((0, 4), (2, 0))]),
+        # a column past 2^17 on one line followed by a token on the next line (packed sort keys; seed C10q)
+        case([orig_tok(0, (0, 0)), orig_tok(1, (0, 200000)), orig_tok(2, (1, 0)), orig_tok(3, (1, 5))], [adj_tok((0, 0), (1, 0)), adj_tok((1, 0), (2, 0))]),
         # i32 boundaries
         case([orig_tok(0, (0, 5))], [adj_tok((0, 0), (0, 4294967294))]),
         case([orig_tok(0, (0, 2147483653))], [adj_tok((0, 2147483648), (0, 0))]),
@@ -208,6 +210,14 @@ def rand_case(rng, hist, big=False):
         else:
             adst = rand_positions(rng, len(asrc), lines + 2, cols + 10, 0.1)
             bump(hist, "arbitrary_adjustment")
+    if not big and rng.chance(0.12):
+        # wide columns (minified lines): the same configuration with every column scaled past 2^16 / 2^17, so that orderings
+        # that compare lines and columns through a packed or narrowed key disagree with the tuple order (seed C10q)
+        k = rng.choice([6554, 40000, 70000])
+        ops = [(l, c * k) for (l, c) in ops]
+        asrc = [(l, c * k) for (l, c) in asrc]
+        adst = [(l, c * k) for (l, c) in adst]
+        bump(hist, "wide_columns")
     o = [orig_tok(i, p, rng) for i, p in enumerate(ops)]
     sl = rng.chance(0.25)
     a = [adj_tok(s, d, sourceless=(sl and rng.chance(0.4))) for s, d in zip(asrc, adst)]
